@@ -66,7 +66,7 @@ MANIFEST = {
                    "is NOT what the code guarantees: reset() clears the stopping flag, so ActorOf/ActorExists resolve the "
                    "stopped PID until death watch (asynchronously) deletes the node; the check asserts the eventual form "
                    "(after death watch is quiescent) and reports the window as diagnostics (res=/reg=); inside that window a "
-                   "lookup can even crash (open finding C09-F2, deterministic witness under controlled scheduling). Left out of the "
+                   "lookup could even crash (C09-F2, fixed by 34b3f24; all 15 interleavings of lookup and deleteNode stay in the check). Left out of the "
                    "model: addRootNode after the root slot was used, attach that would close a cycle (guarded), nil PIDs; "
                    "errgroup concurrency of sibling stops is modelled sequentially (sibling/cousin watch pairs are not "
                    "generated). Trusted: PID.Equals case folding not modelled; cleared node objects are unobservable "
@@ -626,10 +626,8 @@ def classify(case, impl, why):
     # C09-F1: exactly the `guard` witnesses (a guardian's Receive panicking on Terminated-before-PostStart)
     if case.startswith("guard ") and impl and "panic" in impl and why and "guardian panics" in why:
         return "C09-F1"
-    # C09-F2: exactly the `resolve` schedules in which the lookup's Load:pid comes after deleteNode's Store:pid
-    if case.startswith("resolve ") and impl and "panic: runtime error: invalid memory address" in impl \
-            and why and "name resolution panics" in why:
-        return "C09-F2"
+    # C09-F2 (nil PID after a lookup that raced deleteNode) was fixed by 34b3f24: a `resolve` schedule that panics
+    # again is NOT mapped to any finding, so a regression is a VIOLATION
     return None
 
 
